@@ -16,6 +16,7 @@ def run(ctx):
     xb.part_c01(ctx)
     xb.part_c01_ext(ctx)
     xb.part_c01_client(ctx)
+    xb.part_c01_attrs(ctx)
 
 
 def replay(ctx, obj):
